@@ -21,6 +21,11 @@ CHECKS = {
          "property-based differential testing against a reference decoder (proptest-driven byte generator, shrinking to replay file)",
          "DESIGN.md 4/C18",
          "Trusts sha2 and the reference decoder in harness/src/engines/addr.rs; prefixes restricted to lower-case valid HRPs."),
+ "C09": ("bank", "exploration",
+         "Model-based testing of the bank module through App (execute, sudo, send_tokens, init_balance and contract-initiated transfers with attached funds): after every operation of a generated history every Balance/AllBalances/Supply answer for every account and denomination is compared with a reference ledger, Ok/Err with the ledger's verdict, and failed operations with a byte-identical root-storage scan.",
+         "model-based property testing over operation histories (proptest-driven byte generator with state-dependent amounts, reference ledger, shrinking to replay file)",
+         "DESIGN.md 4/C09",
+         "Amounts capped so that no total reaches 2^128 (statement's precondition); recipients are valid bech32 addresses."),
 }
 
 NOT_YET = "check not built yet in this revision of /verif (work in progress; planned, see DESIGN.md section 4)"
